@@ -666,7 +666,7 @@ class ExtendedIndexedOperand(Operand):
             post_byte_choices=post_byte_choices,
             additional=additional,
             size=size,
-            max_size=max_size,
+            max_size=max(size, max_size),
             additional_needs_resolution=additional_needs_resolution,
         )
 
@@ -821,7 +821,7 @@ class IndexedOperand(Operand):
             size=size,
             additional_needs_resolution=additional_needs_resolution,
             post_byte_choices=post_byte_choices,
-            max_size=max_size,
+            max_size=max(size, max_size),
         )
 
 
